@@ -282,7 +282,7 @@ def _rows(ct, tier, seed):
             note('C18.rows.index_equals_definition_on_the_stated_range', ok,
                  'max dev %.3e at %s' % (np.nanmax(np.abs(got - want)) if got.shape == want.shape else float('nan'), r['filename']), inputs)
             s = m.n(float(ws[nw // 2]))
-            note('C18.rows.scalar_and_array_arguments_agree', np.allclose(float(np.ravel(s)[0]), got[nw // 2], rtol=0, atol=0, equal_nan=True),
+            note('C18.rows.scalar_and_array_arguments_agree', np.allclose(float(np.ravel(s)[0]), got[nw // 2], rtol=1e-13, atol=0, equal_nan=True),
                  r['filename'], inputs)
             kt = [bb for bb in blocks if bb['type'] in ('tabulated k', 'tabulated nk')]
             if kt:
